@@ -59,7 +59,7 @@ type queryResult struct {
 	defaultBad string
 }
 
-func runQueries(d *daemon.OrderedDaemon, plan []int, r *queryResult) {
+func runQueries(d daemon.Daemon, plan []int, r *queryResult) {
 	for _, k := range plan {
 		switch k {
 		case qGetRunning:
@@ -106,6 +106,17 @@ func (s *scen) queries(phase string, gs []gdump.G) []gdump.G {
 	}
 	startedAlready := s.started && phase != "before-start"
 	plan := queryPlan(s.qrng, startedAlready, false)
+	if s.pkgLevel {
+		// the daemon under test IS the default daemon: DebugLogger(nil) would remove its logger and the
+		// "default daemon was never used" probe does not apply
+		kept := plan[:0]
+		for _, k := range plan {
+			if k != qDebugLoggerNil && k != qDefaultDaemon {
+				kept = append(kept, k)
+			}
+		}
+		plan = kept
+	}
 	if len(plan) == 0 {
 		return gs
 	}
